@@ -684,3 +684,13 @@ Proof.
   - intros x Hx. rewrite zlen_pread_gen in Hx by lia. rewrite !znth_pread by lia. apply H; lia.
 Qed.
 
+
+(* the repaired iwp_copy_bytes never refuses: every copy is one splice *)
+Lemma file_copy_fixed : forall q f off siz noff rc f', q_copy_fwd q = true -> 0 <= off -> 0 <= noff -> 0 <= siz -> noff + siz <= zlen f ->
+  file_copy q f off siz noff = (rc, f') -> rc = 0 /\ f' = splice f noff (pread f off siz).
+Proof.
+  intros q f off siz noff rc f' Hq Hoff Hnoff Hsiz Hfit E.
+  destruct (file_copy_spec q f off siz noff rc f' Hoff Hnoff Hsiz Hfit E) as [H | [Hrc _]]; [exact H |]. exfalso.
+  unfold file_copy in E. rewrite Hq in E.
+  destruct (negb (IW_RANGES_OVERLAP off (off + siz) noff (noff + siz) =? 0) && (noff >? off)); inversion E as [[E1 E2]]; rewrite Hrc in E1; discriminate E1.
+Qed.
